@@ -222,7 +222,8 @@ func run(c *core.Ctx) {
 	st := &state{perRule: map[string]int{}, thorough: c.Thorough()}
 	if f, err := os.CreateTemp("", "c18-reader-*"); err == nil {
 		st.tmp = f
-		defer func() { f.Close(); os.Remove(f.Name()) }()
+		os.Remove(f.Name()) // unlinked at once: nothing is left behind if the worker is killed
+		defer f.Close()
 	} else {
 		c.Note("no temporary file for the file reader: %v", err)
 	}
